@@ -22,7 +22,7 @@ def ev(expr, log):
     if tag == "b":
         log.append(expr)
         return expr
-    if tag == "p":
+    if tag in ("p", "v"):
         return expr
     # ('m', fname, inner)
     inner = ev(expr[2], log)
@@ -35,7 +35,7 @@ class C19(Check):
     title = "lazy lists are faithful and truly lazy"
 
     def depth(self):
-        return 2 if self.tier == "quick" else 4
+        return 3 if self.tier == "quick" else 4  # (the list-algebra schedule Q stops at 2; video read histories go to 3)
 
     def roots(self):
         # lengths of the two instrumented base lists
@@ -44,11 +44,20 @@ class C19(Check):
         # (len base 0, len base 1, shard, n_shards): the level-0 alphabet is split over shards for parallelism
         # last field: alphabet schedule (A: wide and shallow, B: narrow and deep) - thorough explores both
         scheds = ["Q"] if self.tier == "quick" else ["A", "B"]
-        return [b + (s, shards, c) for c in scheds for b in base for s in range(shards)]
+        out = [b + (s, shards, c) for c in scheds for b in base for s in range(shards)]
+        # video-backed lazy lists (menpo.io.input.video) read through a fake ffmpeg process: here reading is stateful
+        # (the reader keeps a pipe and a position), so every SEQUENCE of reads is a distinct state
+        n_frames = 6 if self.tier == "quick" else 7
+        for first in range(n_frames):
+            out.append(("video", n_frames, first))
+        return out
 
     # ------------------------------------------------------------------ state
     def build(self, root):
         from menpo.base import LazyList
+
+        if root[0] == "video":
+            return self._build_video(root)
 
         log = []
         st = {"log": log, "lists": [], "model": [], "funcs": {}}
@@ -93,7 +102,96 @@ class C19(Check):
 
         return st
 
+    # ------------------------------------------------------------------ video-backed lists
+    VH, VW, VFPS = 2, 3, 5.0
+
+    def _build_video(self, root):
+        import io
+        import types
+        from pathlib import Path
+
+        import menpo.io.input.video as mvideo
+
+        n = root[1]
+        H, W, FPS = self.VH, self.VW, self.VFPS
+        stats = {"spawned": 0}
+
+        class FakeFFmpeg(object):
+            """what the reader can see of `ffmpeg [-ss t] -i file ... -`: frame k is filled with the value k, -ss opens at
+            frame round(t * fps), the process stays alive so forward reads keep streaming from the same pipe"""
+
+            def __init__(self, command, **kwargs):
+                stats["spawned"] += 1
+                start = 0
+                if "-ss" in command:
+                    start = int(round(float(command[command.index("-ss") + 1]) * FPS))
+                data = b"".join(np.full(H * W * 3, k, dtype=np.uint8).tobytes() for k in range(start, n))
+                self.stdout = io.BytesIO(data)
+                self.stderr = None
+                self.stdin = None
+
+            def poll(self):
+                return None
+
+        # the seam is the operating-system process: the module's `sp` (subprocess) and the ffprobe query
+        mvideo.sp = types.SimpleNamespace(Popen=FakeFFmpeg, PIPE=-1, DEVNULL=-3, STDOUT=-2)
+        mvideo.video_infos_ffprobe = lambda fp: {"duration": n / FPS, "width": W, "height": H, "n_frames": n, "fps": FPS}
+        ll = mvideo.ffmpeg_importer(Path("fake_video.avi"), normalize=False)
+        f = lambda im: ("f", im)  # noqa
+        lists = [ll, ll[::2], ll.map(f), ll.repeat(2), ll[[n - 1, 0, n - 1]], ll + ll[1:3]]
+        base = [("v", i) for i in range(n)]
+        model = [tuple(base), tuple(base[::2]), tuple(("m", "f", e) for e in base), tuple(e for e in base for _ in range(2)), (base[n - 1], base[0], base[n - 1]), tuple(base) + tuple(base[1:3])]
+        st = {"video": True, "lists": lists, "model": model, "history": (), "n": n, "stats": stats, "log": [], "first": root[2]}
+        # the root's third field is the first read (splits the work over workers)
+        return st
+
+    @staticmethod
+    def _norm(v):
+        """frames come back as menpo Images: reduce them to ('v', k)"""
+        if isinstance(v, tuple):
+            return tuple(C19._norm(x) for x in v)
+        px = getattr(v, "pixels", None)
+        if px is None:
+            return v
+        a = np.asarray(px)
+        if a.size == 0 or a.min() != a.max():
+            return ("torn-frame", a.shape)
+        return ("v", int(round(float(a.flat[0]) * (255 if a.dtype.kind == "f" else 1))))
+
+    def _ops_video(self, st, level):
+        n = st["n"]
+        depth = 3 if self.tier == "quick" else 4
+        if level >= depth:
+            return []
+        if level == 0:
+            return [("vget", 0, st["first"])]
+        out = [("vget", 0, i) for i in range(n)]
+        if level == depth - 1:
+            # last step: also read through every derived list (slice, map, repeat, fancy index, concatenation)
+            for j in range(1, len(st["lists"])):
+                for i in range(len(st["model"][j])):
+                    out.append(("vget", j, i))
+        return out
+
+    def _video_apply(self, st, op, verify):
+        _, j, i = op
+        ll, mod = st["lists"][j], st["model"][j]
+        got = self._norm(ll[i])
+        want_log = []
+        want = ev(mod[i], want_log)
+        st["history"] = st["history"] + ((j, i),)
+        self.note("vget:%s" % ("base" if j == 0 else "derived"))
+        if len(st["history"]) >= 2:
+            (pj, pi), (cj, ci) = st["history"][-2], st["history"][-1]
+            if pj == 0 and cj == 0:
+                self.note("vget:%s" % ("forward-jump" if ci > pi + 1 else "next" if ci == pi + 1 else "backward-or-same"))
+        if verify and got != want:
+            return [Failure("video", "value-depends-on-read-history", "after reads %r element %d of list #%d is %r, an ordinary list gives %r" % (list(st["history"][:-1]), i, j, got, want))]
+        return []
+
     def canon(self, st):
+        if st.get("video"):
+            return ("video", st["n"], st["history"])
         # the pool as a set of expression lists: pools that differ only in creation order or in holding
         # the same list twice have isomorphic futures (ops address lists by position only)
         # (the newest list is kept apart because the enabled alphabet depends on which list is newest)
@@ -121,6 +219,8 @@ class C19(Check):
     }
 
     def ops(self, st, level):
+        if st.get("video"):
+            return self._ops_video(st, level)
         n_lists = len(st["model"])
         out = []
         sched = self.SCHEDULES[st["sched"]]
@@ -177,6 +277,8 @@ class C19(Check):
     def apply(self, st, op, verify=True):
         from menpo.base import LazyList
 
+        if op[0] == "vget":
+            return self._video_apply(st, op, verify)
         kind, j = op[0], op[1]
         ll = st["lists"][j]
         mod = st["model"][j]
@@ -348,7 +450,7 @@ class C19(Check):
 
     # ------------------------------------------------------------------ reporting
     def vacuity(self, notes, stats):
-        need = ["get:IndexError", "mapn:ValueError", "fancy:IndexError", "repeat:len0", "slice:len0", "iter:len0"]
+        need = ["vget:forward-jump", "vget:backward-or-same", "vget:next", "vget:derived", "get:IndexError", "mapn:ValueError", "fancy:IndexError", "repeat:len0", "slice:len0", "iter:len0"]
         out = ["outcome %s never produced" % n for n in need if not notes.get(n)]
         if not notes.get("read:depth2"):
             out.append("no element of a doubly derived list was ever read")
